@@ -261,6 +261,96 @@ where
     }
 }
 
+const FILL: f64 = -777.015625;
+
+/// The representation as a place results are WRITTEN to (Containers.tla, WriteCell): a
+/// caller-supplied ring with this capacity and head, filled through the `*_to` twins.
+fn out_as_ring(vals: &Vec<f64>, cap: usize, head: usize) -> Result<(), String> {
+    use std::mem::MaybeUninit;
+    let r = catch(|| -> Result<(), String> {
+        let n = vals.len();
+        let base: Vec<u64> = vals.ts_vstd::<Vec<f64>, f64>(3, Some(2)).into_iter().map(bits).collect();
+        let base2: Vec<u64> = vals.ts_vrank::<Vec<f64>, f64>(3, Some(1), false, false).into_iter().map(bits).collect();
+        for which in 0..2 {
+            let mut d: VecDeque<MaybeUninit<f64>> = VecDeque::with_capacity(cap.max(n));
+            let real_cap = d.capacity().max(1);
+            for _ in 0..(head % real_cap) {
+                d.push_back(MaybeUninit::new(FILL));
+                d.pop_front();
+            }
+            for _ in 0..n {
+                d.push_back(MaybeUninit::new(FILL));
+            }
+            let ret = if which == 0 {
+                vals.ts_vstd_to::<VecDeque<f64>, f64>(3, Some(2), Some(&mut d))
+            } else {
+                vals.ts_vrank_to::<VecDeque<f64>, f64>(3, Some(1), false, false, Some(&mut d))
+            };
+            if ret.is_some() {
+                return Err("a caller-buffer call returned a container".into());
+            }
+            let got: Vec<u64> = d.into_iter().map(|c| bits(unsafe { c.assume_init() })).collect();
+            if got != *(if which == 0 { &base } else { &base2 }) {
+                return Err(format!("{} written into the supplied ring differs from the returned Vec<f64>", if which == 0 { "ts_vstd_to" } else { "ts_vrank_to" }));
+            }
+        }
+        Ok(())
+    });
+    match r {
+        Ok(x) => x,
+        Err(p) => Err(format!("panicked: {p}")),
+    }
+}
+
+/// ... and a caller-supplied strided / reversed view of a larger array; the cells of the array
+/// that do not belong to the view must come back untouched.
+fn out_as_view(vals: &Vec<f64>, bn: usize, off: isize, step: isize) -> Result<(), String> {
+    use std::mem::MaybeUninit;
+    let r = catch(|| -> Result<(), String> {
+        let n = vals.len();
+        let base: Vec<u64> = vals.ts_vstd::<Vec<f64>, f64>(3, Some(2)).into_iter().map(bits).collect();
+        let base2: Vec<u64> = vals.ts_vrank::<Vec<f64>, f64>(3, Some(1), false, false).into_iter().map(bits).collect();
+        for which in 0..2 {
+            let mut arr: Array1<MaybeUninit<f64>> = Array1::from_shape_fn(bn, |_| MaybeUninit::new(FILL));
+            {
+                let view = if n == 0 {
+                    arr.slice_mut(s![0..0])
+                } else if step > 0 {
+                    let end = off + (n as isize - 1) * step + 1;
+                    arr.slice_mut(s![off..end;step])
+                } else {
+                    let lo = off + (n as isize - 1) * step;
+                    arr.slice_mut(s![lo..off + 1;step])
+                };
+                let ret = if which == 0 {
+                    vals.ts_vstd_to::<Array1<f64>, f64>(3, Some(2), Some(view))
+                } else {
+                    vals.ts_vrank_to::<Array1<f64>, f64>(3, Some(1), false, false, Some(view))
+                };
+                if ret.is_some() {
+                    return Err("a caller-buffer call returned a container".into());
+                }
+            }
+            let all: Vec<f64> = arr.iter().map(|c| unsafe { c.assume_init() }).collect();
+            let live: Vec<usize> = (0..n).map(|i| (off + i as isize * step) as usize).collect();
+            for (p, x) in all.iter().enumerate() {
+                if !live.contains(&p) && bits(*x) != bits(FILL) {
+                    return Err(format!("cell {p} of the underlying array is outside the supplied view (cells {live:?}) and was overwritten"));
+                }
+            }
+            let got: Vec<u64> = live.iter().map(|p| bits(all[*p])).collect();
+            if got != *(if which == 0 { &base } else { &base2 }) {
+                return Err(format!("{} written into the supplied view differs from the returned Vec<f64>", if which == 0 { "ts_vstd_to" } else { "ts_vrank_to" }));
+            }
+        }
+        Ok(())
+    });
+    match r {
+        Ok(x) => x,
+        Err(p) => Err(format!("panicked: {p}")),
+    }
+}
+
 fn enc_logical(l: &[i64]) -> (Vec<f64>, Vec<u64>) {
     // payload values scaled so that statistics are not trivially integral
     let v: Vec<f64> = l.iter().map(|x| if *x == NULL { f64::NAN } else { (*x as f64) * 0.5 - 3.0 * ((*x % 3) as f64) }).collect();
@@ -375,6 +465,7 @@ fn replay(args: &Args) {
                 cx.compare(&cell, battery::<f64, _>(&d), false);
                 cx.compare(&cell, battery_f64(&d), true);
                 cx.judge(&cell, "outputs", out_matrix::<f64, _>(&d));
+                cx.judge(&format!("Vec<f64>->{cell} as caller buffer"), "written", out_as_ring(&vals, cap, head));
                 let arc = Arc::new(d.clone());
                 cx.compare(&format!("Arc<{cell}>"), battery::<f64, _>(&arc), false);
                 // (the option view is not offered for VecDeque: its slice type is not iterable as TIter)
@@ -404,6 +495,7 @@ fn replay(args: &Args) {
                 cx.compare(&cell, battery::<f64, _>(&view), false);
                 cx.compare(&cell, battery_f64(&view), true);
                 cx.judge(&cell, "outputs", out_matrix::<f64, _>(&view));
+                cx.judge(&format!("Vec<f64>->ArrayViewMut1<f64>(step {step}) as caller buffer"), "written", out_as_view(&vals, bn, off, step));
                 if step == 1 {
                     let owned = view.to_owned();
                     cx.judge("Array1<f64>", "accessors", accessors::<f64, _>(&owned, &lbits, Some(true)));
